@@ -97,7 +97,12 @@ func firstLine(s string) string {
 	return s
 }
 
-const proveBound = 120 * time.Second
+// A prover that does not return is told apart from a slow machine by CPU time
+// (busy loop) or by an idle process (deadlock), never by the wall clock alone.
+const (
+	proveCPUBound = 240 * time.Second
+	proveWallCap  = 30 * time.Minute
+)
 
 func run(c Case) ev.Outcome {
 	f := prog.FieldByName(c.Curve)
@@ -170,16 +175,13 @@ func run(c Case) ev.Outcome {
 		p   any
 		err error
 	}
-	ch := make(chan res, 1)
-	go func() {
-		p, err := prove(full, po)
-		ch <- res{p, err}
-	}()
 	var r res
-	select {
-	case r = <-ch:
-	case <-time.After(proveBound):
-		return ev.Outcome{Violation: fmt.Sprintf("Prove did not return within %v (satisfying=%v)", proveBound, satisfying)}
+	switch v := ev.Bounded(proveCPUBound, proveWallCap, func() { r.p, r.err = prove(full, po) }); v {
+	case ev.Returned:
+	case ev.Slow:
+		return ev.Outcome{Discard: true, DiscardWhy: "Prove still working at the wall cap (loaded machine): inconclusive"}
+	default:
+		return ev.Outcome{Violation: fmt.Sprintf("Prove does not return (satisfying=%v): %v; CPU bound %v, honest cost is well under a second", satisfying, v, proveCPUBound)}
 	}
 	if r.err != nil && strings.HasPrefix(r.err.Error(), "PANIC") {
 		return ev.Outcome{Violation: fmt.Sprintf("Prove panicked (satisfying=%v): %s", satisfying, firstLine(r.err.Error()))}
@@ -283,7 +285,7 @@ func genCase(curves []string) *rapid.Generator[Case] {
 	})
 }
 
-const rule = "rapid-generated provable programs biased to edge shapes (one op, no secret input, 0-4 commitments, constants) x 7 curves x {groth16, plonk} x consistent hash options (default/sha256/sha3/keccak for hash-to-field, challenge, KZG folding) x statistical-ZK x solver task counts; assignment classified by the reference interpreter (optionally with one wrong claimed output). Satisfying: Setup, Prove, Verify (Witness.Public() and public-only witness) all succeed, and a verifier with a different hash option rejects. Non-satisfying: Prove returns an error within 120 s, no panic. Non-trivial: system has >=1 constraint. Distinct: SHA-256 of the case JSON."
+const rule = "rapid-generated provable programs biased to edge shapes (one op, no secret input, 0-4 commitments, constants) x 7 curves x {groth16, plonk} x consistent hash options (default/sha256/sha3/keccak for hash-to-field, challenge, KZG folding) x statistical-ZK x solver task counts; assignment classified by the reference interpreter (optionally with one wrong claimed output). Satisfying: Setup, Prove, Verify (Witness.Public() and public-only witness) all succeed, and a verifier with a different hash option rejects. Non-satisfying: Prove returns an error (non-return = 240 s of CPU consumed, or an idle process: never the wall clock alone), no panic. Non-trivial: system has >=1 constraint. Distinct: SHA-256 of the case JSON."
 
 func TestCompleteness(t *testing.T) {
 	rec := ev.Get(ID)
